@@ -213,6 +213,16 @@ def read_trees(w, tier):
     if w == 8 or (tier == 'thorough' and w == 32):
         for t in E2:
             yield t
+    # operators with a repeated operand (a shortcut for x^x, x-x, x&x must not swallow a further operand)
+    rep = []
+    for op in g.ASSOC:
+        rep += [g.OP(op, b, b, a), g.OP(op, a, b, b), g.OP(op, b, a, b), g.OP(op, a, a), g.OP(op, a, a, a)]
+    rep += [g.OP('-', a, a), g.OP('-', g.OP('+', a, b), a), g.COND(g.OP('^', a, a), b, a), g.COND(b, a, a)]
+    for t in rep:
+        yield t
+        yield ('aff', g.ID('c', w), t)
+        if w >= 8:
+            yield ('aff', g.MEM(g.addr_of(w), w), t)
     # assignments
     ex = g.exemplars(w)
     for x in ex[:10] + [a, b]:
@@ -413,6 +423,17 @@ def match_space(w, tier):
         # a wildcard list that does not contain the pattern's identifiers: plain equality
         yield p, p, (), True
         yield p, ref_subst(p, {X: Y}), (), False
+    # a wildcard as segment selector, used twice: bound consistently or not at all
+    if w == 32:
+        S = g.ID('S', 16)
+        segs = [g.ID('ds', 16), g.ID('fs', 16), None]
+        for mk in (lambda m1, m2: g.OP('^', m1, m2), lambda m1, m2: g.COND(m1, m2, g.I(32, 1)), lambda m1, m2: g.OP('+', m1, g.I(32, 4), m2)):
+            p = mk(g.MEM(X, 32, S), g.MEM(Y, 32, S))
+            for s1 in segs:
+                for s2 in segs:
+                    for a1, a2 in ((g.ID('a', 32), g.ID('b', 32)), (g.ID('a', 32), g.ID('a', 32))):
+                        yield p, mk(g.MEM(a1, 32, s1), g.MEM(a2, 32, s2)), (X, Y, S), s1 == s2 and s1 is not None
+        p = g.OP('+', S if False else g.MEM(X, 32, S), g.MEM(X, 32, S))
     # concatenation geometry: bare wildcards as parts; every pair of 2- and 3-slot tilings over the cut points
     # (an instance iff the two tilings coincide; otherwise parts share one, both or no boundary with the pattern)
     cs = [c for c in g.cuts(w) if 0 < c < w]
